@@ -63,6 +63,7 @@ inductive SqlE where
   | quoteBytes (f : String)                        -- `token.QuoteSQLBytes(x.F)`
   | boolUpper (f : String)                         -- `formatBoolUpper(x.F)`
   | local (v : String)                             -- a local string bound by `v := e`
+  | spaceAfterInt (e : SqlE)                       -- `spaceAfterInt(e)`: a blank appended when `e` ends with a decimal integer literal
   deriving Repr, DecidableEq, Inhabited
 
 /-- method bodies -/
@@ -244,6 +245,16 @@ def parenSql (T : SqlTables) (c : SqlCtx) (pn : Nat) (f : String) : Option Bytes
     | _, _ => none
   | _ => none
 
+/-- `spaceAfterInt` of ast/sql.go: strip the trailing decimal digits; if there are none, or the byte before them is an
+identifier byte or a dot, the text is returned as it is, else a blank is appended -/
+def spaceAfterIntB (s : Bytes) : Bytes :=
+  let r := s.reverse
+  let rest := r.dropWhile Char.isDigit
+  if rest.length == r.length then s
+  else match rest with
+    | [] => s ++ [32]
+    | c :: _ => if Char.isIdentPart c || c == 46 then s else s ++ [32]
+
 def SqlE.eval (T : SqlTables) (isPrint : Nat → Bool) (c : SqlCtx) : SqlE → Option Bytes
   | .lit s => some (B s)
   | .cat a b =>
@@ -286,6 +297,7 @@ def SqlE.eval (T : SqlTables) (isPrint : Nat → Bool) (c : SqlCtx) : SqlE → O
   | .quoteBytes f => if c.cls f == some .bytes then (c.str f).map Quote.quoteBytes else none
   | .boolUpper f => (c.boolF f).map fmtBoolUpper
   | .local v => c.locals.lookup v
+  | .spaceAfterInt e => (e.eval T isPrint c).map spaceAfterIntB
 
 /-! ### The hand-written bodies (statement form) -/
 
